@@ -83,6 +83,7 @@ impl EchoReq {
             body: Blob(self.body.clone().unwrap_or_default()),
             delay_ms,
             req,
+            cancel_ms: 0,
         }
     }
 }
